@@ -150,3 +150,41 @@ def raise_if_neg(x):
     if x < 0:
         raise ValueError("negative")
     return x
+
+
+def sneaky_field(c):
+    c.count = c.count + 1
+    return 0
+
+
+def sneaky_param(xs):
+    xs.append(1)
+    return 0
+
+
+def sneaky_loop(xs, ys):
+    for y in ys:
+        xs.append(y)
+    return 0
+
+
+def rebind_param(xs):
+    xs = xs + [1]
+    xs.append(2)
+    return len(xs)
+
+
+def own_object_store(v):
+    n = STNode(v)
+    n.tag = "mine"
+    return n.value
+
+
+def guarded_push(xs, flag):
+    flag and push(xs, 1)
+    return len(xs)
+
+
+def guarded_bump(c, flag):
+    r = bump(c, 1) if flag else 0
+    return r
